@@ -110,6 +110,33 @@ func buildPlan(quick bool) []item {
 			}
 		}
 	}
+	// capacity/maximum slice: {capacity-from-max off, on, compiled-with/run-without through a shared cache} x
+	// {no declared max, declared max with min<max, min=0 with declared max} on module-defined unshared memories that
+	// MOVE on every grow, for the placements around calls and growth.
+	capOps, capOffs, capPages := []string{"i32.load", "i64.store", "i64.atomic.rmw.add", "memory.fill"}, []uint64{0, 1, 1<<16 - 1, 1 << 16}, []uint32{1}
+	if !quick {
+		capOps, capOffs, capPages = append(append([]string{}, repOps...), "memory.fill", "memory.copy(dst)", "memory.copy(src)", "memory.init"), offsetAlphabet, []uint32{1, 2}
+	}
+	type capCfg struct {
+		pages   uint32
+		declMax bool
+		capMax  string
+	}
+	var cfgs []capCfg
+	for _, pg := range capPages {
+		cfgs = append(cfgs, capCfg{pg, false, "on"}, capCfg{pg, true, ""}, capCfg{pg, true, "on"}, capCfg{pg, true, "shared-cache"})
+	}
+	cfgs = append(cfgs, capCfg{0, true, ""}, capCfg{0, true, "on"}, capCfg{0, true, "shared-cache"})
+	for _, name := range capOps {
+		for _, c := range cfgs {
+			for _, engine := range []string{"compiler", "interpreter"} {
+				b := batch{Engine: engine, Kind: mkLocal, Pages: c.pages, Op: name, Offs: capOffs, Level: 3, DeclMax: c.declMax, CapMax: c.capMax}
+				b.FewConst = quick
+				b.Prune = quick && name != "i32.load" && name != "i64.store"
+				items = append(items, item{Batch: b})
+			}
+		}
+	}
 	return items
 }
 
@@ -136,6 +163,10 @@ next:
 				have = memKindNames[it.Batch.Kind]
 			case "level":
 				have = strconv.Itoa(it.Batch.Level)
+			case "capmax":
+				have = it.Batch.CapMax
+			case "declmax":
+				have = strconv.FormatBool(it.Batch.DeclMax)
 			}
 			if have != v {
 				continue next
@@ -269,7 +300,10 @@ func loadFindings() []fw.Finding {
 
 // runSingle executes exactly one case in a fresh supervised child and reports whether it fails.
 func (a *agg) runSingle(c caseDesc, tag string) (failed bool, what string) {
-	b := batch{Engine: c.Engine, Kind: memKindByName(c.Mem), Pages: c.Pages, Op: c.Op, Offs: []uint64{c.Off}, Level: 0, Only: &c, Move: c.Move}
+	b := batch{Engine: c.Engine, Kind: memKindByName(c.Mem), Pages: c.Pages, Op: c.Op, Offs: []uint64{c.Off}, Level: 0, Only: &c, Move: c.Move, DeclMax: c.DeclMax, CapMax: c.CapMax}
+	if c.Pages != 0 && placementByName(c.Placement) != nil && placementByName(c.Placement).Touch0 {
+		b.Level = 3 // the zero-length-touch placements are only generated there (and for empty memories)
+	}
 	path := filepath.Join(a.dir, "items-"+tag+".json")
 	if err := os.WriteFile(path, []byte(mustJSON([]item{{Batch: b}})), 0o600); err != nil {
 		a.fatalf("items file: %v", err)
@@ -328,6 +362,12 @@ func (a *agg) handle(pool string, items []item, workers int, i int, res string, 
 	key := fmt.Sprintf("%s/%s/%d-pages", b.Engine, memKindNames[b.Kind], b.Pages)
 	if b.Move {
 		key += "/moving"
+	}
+	if b.DeclMax {
+		key += "/max-declared"
+	}
+	if b.CapMax != "" {
+		key += "/capacity-from-max:" + b.CapMax
 	}
 	if crash != nil {
 		prog := openProgress(filepath.Join(a.dir, fmt.Sprintf("w-%s-%d", pool, i%workers)), false)
